@@ -60,6 +60,7 @@ fn dispatch(toks: &[&str]) -> String {
         "fsh" => fsrun::run(toks),
         "fsckfile" => fsckrun::fsck_file(toks),
         "pdtree" => fsckrun::pdtree(toks),
+        "cpmext" => fsckrun::cpmext(toks),
         _ => format!("unsupported:{}",toks[0])
     }
 }
